@@ -1,7 +1,7 @@
-use crate::decoder::decode;
+use crate::decoder::{can_continue_block, decode};
 use crate::decoder::ops::{Op, Register8, Register16, IndirectLocation, JumpCondition};
 use crate::cpu::{Registers, self};
-use crate::mem::{get_executable_memory_slice, memory_read_byte, memory_write_byte, memory_write_word, MemoryAreas};
+use crate::mem::{get_executable_memory_slice, try_get_executable_memory_slice, memory_read_byte, memory_write_byte, memory_write_word, MemoryAreas};
 
 pub fn run_code_block(registers: &mut Registers, mem: *mut MemoryAreas) -> u8 {
   let mut status = cpu::STATUS_NORMAL;
@@ -27,9 +27,9 @@ pub fn run_code_block(registers: &mut Registers, mem: *mut MemoryAreas) -> u8 {
           // the fixed bank on into the switchable bank
           break;
         }
-        if next_op_is_undefined(registers, mem) {
-          // same block boundary as the translator: an undefined opcode is
-          // only reported once execution arrives at it
+        if !next_op_continues_block(registers, mem) {
+          // same block boundary as the translator: an instruction that
+          // cannot be decoded is only reported once execution arrives at it
           break;
         }
       },
@@ -56,14 +56,10 @@ pub fn run_code_block(registers: &mut Registers, mem: *mut MemoryAreas) -> u8 {
   status
 }
 
-fn next_op_is_undefined(registers: &Registers, mem: *mut MemoryAreas) -> bool {
-  let code_slice = get_executable_memory_slice(registers.ip as usize, mem);
-  if code_slice.len() < 1 {
-    return false;
-  }
-  match decode(code_slice) {
-    (Op::Invalid(_), _, _) => true,
-    _ => false,
+fn next_op_continues_block(registers: &Registers, mem: *mut MemoryAreas) -> bool {
+  match try_get_executable_memory_slice(registers.ip as usize, mem) {
+    Some(code_slice) => can_continue_block(code_slice),
+    None => false,
   }
 }
 
